@@ -14,9 +14,10 @@ PY=/venv/bin/python
 with=$($PY -m pytest -q -p no:cacheprovider demo_test.py 2>&1 | tail -1)
 suite=$($PY -m pytest -q -p no:cacheprovider --timeout=900 --continue-on-collection-errors --ignore=demo_test.py -x --co -q >/dev/null 2>&1; $PY -m pytest -q -p no:cacheprovider --timeout=900 --continue-on-collection-errors --ignore=demo_test.py 2>&1 | tail -1)
 fired=$("$V/tools/check_tree.sh" "$W" | grep '^fired')
-git stash -q -- placement
+# (git stash is shared between worktrees: undo and re-apply the diff instead)
+git checkout -q -- placement
 without=$($PY -m pytest -q -p no:cacheprovider demo_test.py 2>&1 | tail -1)
-git stash pop -q
+git apply /tmp/harvest_$ID.diff
 echo "demo with change   : $with"
 echo "demo without change: $without"
 echo "pinned suite       : $suite"
